@@ -68,6 +68,9 @@ def check_impl(c, out, ctx, prof):
         ctx.stats['encodable_cases_with_plan'] = ctx.stats.get('encodable_cases_with_plan', 0) + 1
         if len(used) <= 1 and not (used & {'Edifact'}):
             ctx.stats['plans_inside_a_proved_round_trip_class'] = ctx.stats.get('plans_inside_a_proved_round_trip_class', 0) + 1
+        # C01_mixed_plan_test (Proofs/EncMulti.v, p5b): no EDIFACT entry, no non-ASCII entry at positions 1 or 2
+        if all(MODE_BY_INDEX[mi] != 'Edifact' and (mi == 0 or a > 2 or a == 0) for a, mi in plan):
+            ctx.stats['plans_inside_the_mixed_plan_theorem'] = ctx.stats.get('plans_inside_the_mixed_plan_theorem', 0) + 1
     # latches: non-ASCII modes to which the plan assigns at least one character
     assigned = []
     for (a, mi), (b, _) in zip(plan, plan[1:]):
